@@ -35,6 +35,7 @@ pub struct Cfg {
     pub rec: Vec<usize>,        // builds that start with a current record
     pub inh: Vec<Vec<usize>>,   // X.output inheritance
     pub svc_fail: Vec<usize>,   // services whose launch fails in this run
+    pub gates: Vec<(String, usize)>, // (point, target): phases of incremental::run the driver holds
     pub raw: Value,
 }
 
@@ -57,6 +58,10 @@ impl Cfg {
             rec: usv(&v["rec"]),
             inh: v["inh"].as_array().map(|a| a.iter().map(usv).collect()).unwrap_or_else(|| vec![vec![]; n]),
             svc_fail: usv(&v["svc_fail"]),
+            gates: v["gates"]
+                .as_array()
+                .map(|a| a.iter().map(|g| (g[0].as_str().unwrap().to_string(), g[1].as_u64().unwrap() as usize)).collect())
+                .unwrap_or_default(),
             raw: v.clone(),
         }
     }
@@ -108,6 +113,8 @@ struct ActorTrack {
     build_active: bool,
     parked: bool,
     pending_inval: bool,
+    gate: Option<String>,
+    term_seen: bool,
 }
 
 #[derive(Default)]
@@ -123,6 +130,7 @@ struct Track {
     signal_sent: bool,
     done: bool,
     next_ev: usize,
+    gate_on: HashSet<(String, String)>,
 }
 
 impl Track {
@@ -147,7 +155,16 @@ impl Track {
                 a.busy = true;
                 a.pending_inval = false;
             }
-            "wake_term" => self.actor(&e.t).busy = true,
+            "wake_term" => {
+                let a = self.actor(&e.t);
+                a.busy = true;
+                a.term_seen = true;
+            }
+            "incr_checked" | "incr_script_done" | "incr_computed" | "incr_captured" | "incr_deleted" | "incr_saved" => {
+                if self.gate_on.contains(&(e.ev.clone(), e.t.clone())) {
+                    self.actor(&e.t).gate = Some(e.ev.clone());
+                }
+            }
             "wake_build" => {
                 let a = self.actor(&e.t);
                 a.busy = true;
@@ -197,7 +214,10 @@ impl Track {
             && self.actors.values().all(|a| {
                 !a.launched
                     || a.exited
-                    || (!a.busy && a.recv_cnt == a.delivered && (!a.build_active || a.parked) && !a.pending_inval)
+                    || (!a.busy
+                        && a.recv_cnt == a.delivered
+                        && (!a.build_active || a.parked || (a.gate.is_some() && !a.term_seen))
+                        && !a.pending_inval)
             })
     }
 }
@@ -261,6 +281,12 @@ impl<'a> Run<'a> {
                 self.tr.feed(e);
             }
             self.tr.next_ev += evs.len();
+            // a held phase always ends: once its actor has handled the termination message, let it go
+            let late: Vec<String> =
+                self.tr.actors.iter().filter(|(_, a)| a.gate.is_some() && a.term_seen).map(|(t, _)| t.clone()).collect();
+            for t in late {
+                self.release_gate(&t, true);
+            }
             if evs.is_empty() {
                 self.drain_a();
                 if self.tr.quiescent() {
@@ -279,6 +305,22 @@ impl<'a> Run<'a> {
         }
     }
 
+    fn release_gate(&mut self, t: &str, auto: bool) {
+        if let Some(point) = self.tr.actor(t).gate.take() {
+            hemit("h_gate", t, &[("point", js(&point)), ("auto", auto.to_string())]);
+            let mut sh = probe::get().sh.lock().unwrap();
+            let key = (point, t.to_string());
+            match sh.gate_tx.remove(&key) {
+                Some(tx) => {
+                    tx.try_send(()).ok();
+                }
+                None => {
+                    sh.gate_released.insert(key);
+                }
+            }
+        }
+    }
+
     fn enabled(&self) -> Vec<String> {
         let mut v = vec![];
         if self.tr.done {
@@ -290,6 +332,11 @@ impl<'a> Run<'a> {
                 if !q.is_empty() {
                     v.push(format!("D:{}>{}", s, d));
                 }
+            }
+        }
+        for (t, a) in &self.tr.actors {
+            if a.launched && !a.exited && a.gate.is_some() {
+                v.push(format!("G:{}", t));
             }
         }
         for (t, a) in &self.tr.actors {
@@ -375,6 +422,10 @@ impl<'a> Run<'a> {
                 }
                 hemit("h_notify", t, &[("accepted", accepted.to_string())]);
             }
+            "G" => {
+                let t = parts[1].to_string();
+                self.release_gate(&t, false);
+            }
             "S" => {
                 hemit("h_signal", "", &[]);
                 self.tr.signal_sent = true;
@@ -421,6 +472,8 @@ pub fn run_once(
     setup_dir(cfg, dir);
     let p = probe::get();
     p.reset(true, false);
+    let gate_on: HashSet<(String, String)> = cfg.gates.iter().map(|(p, t)| (p.clone(), Cfg::name(*t))).collect();
+    p.sh.lock().unwrap().gate_on = gate_on.clone();
     hemit("cfg", &cfg.id, &[("cfg", cfg.raw.to_string())]);
 
     let mut targets = HashMap::new();
@@ -445,7 +498,7 @@ pub fn run_once(
     let mut run = Run {
         cfg,
         dir: dir.to_path_buf(),
-        tr: Track { root_busy: true, ..Default::default() },
+        tr: Track { root_busy: true, gate_on, ..Default::default() },
         pool: BTreeMap::new(),
         a_rx,
         b_tx,
@@ -475,7 +528,8 @@ pub fn run_once(
             return finish(run, status, steps, choices);
         }
         // only the non-environmental stimuli say whether zinoma itself can still move
-        let internal: Vec<&String> = enabled.iter().filter(|s| s.starts_with("D:") || s.starts_with("N:")).collect();
+        let internal: Vec<&String> =
+            enabled.iter().filter(|s| s.starts_with("D:") || s.starts_with("N:") || s.starts_with("G:")).collect();
         let scripts: Vec<&String> = enabled.iter().filter(|s| s.starts_with("F:")).collect();
         hemit(
             "h_quiescent",
@@ -589,7 +643,9 @@ impl Chooser for ReplayChooser {
             if self.strict {
                 return None;
             }
-            return enabled.iter().position(|s| s.starts_with("D:") || s.starts_with("F:") || s.starts_with("N:"));
+            return enabled
+                .iter()
+                .position(|s| s.starts_with("D:") || s.starts_with("F:") || s.starts_with("N:") || s.starts_with("G:"));
         }
         match enabled.iter().position(|s| s == &self.sched[step]) {
             Some(k) => Some(k),
@@ -713,7 +769,9 @@ pub fn main(job: &Value) -> i32 {
         }
     }
     out.flush().unwrap();
-    println!("{}", json!({"runs": summary, "stalled": stalled}));
+    let text = json!({"runs": summary, "stalled": stalled}).to_string();
+    std::fs::write(format!("{}.summary.json", out_path), &text).unwrap();
+    println!("{}", text);
     if stalled {
         3
     } else {
